@@ -17,6 +17,41 @@ Proof. intros a d H. destruct a; simpl in H; inv H; auto. Qed.
 
 Ltac usplit u := destruct u as [p fl s q w a dq at_ cf]; cbn [present flags st queue wpc armed deq att conf] in *.
 
+(* ------------------------------------------------------------------ the generated decisions, in closed form *)
+(* [dequeue] and [exit_check] of Model.v branch on SlskGen.TrackGen.worker_decide; for the current source they are: *)
+Definition exit_check_hand (u : user) : user := match queue u with [] => absent (deq u) (att u) | _ => set_pc u PIdle end.
+
+Definition after_cancel (u : user) (prev : nat) : user :=
+  if Nat.eqb prev 0 then exit_check_hand u
+  else mkU (present u) (flags u) (st u) (queue u) PSendRemove (armed u) (deq u) (att u ++ [SRem]) (conf u).
+
+Definition dequeue_hand (u : user) : user :=
+  match queue u with
+  | [] => u
+  | r :: q =>
+      let prev := flags u in
+      let new := apply_req r prev in
+      let retry := Nat.eqb (req_flag r) 0 in
+      if Nat.eqb new 0 then
+        after_cancel (mkU (present u) new (st u) q (wpc u) None (deq u ++ [(prev, new, retry)]) (att u) (conf u)) prev
+      else if Nat.eqb prev 0 || retry then
+        mkU (present u) new (st u) q PSendAdd (armed u) (deq u ++ [(prev, new, retry)]) (att u ++ [SAdd]) (conf u)
+      else mkU (present u) new (st u) q (wpc u) (armed u) (deq u ++ [(prev, new, retry)]) (att u) (conf u)
+  end.
+
+Lemma exit_check_eq : forall u, exit_check u = exit_check_hand u.
+Proof. intros u. unfold exit_check, exit_check_hand. destruct (queue u); reflexivity. Qed.
+
+Lemma dequeue_eq : forall u, wpc u = PIdle -> dequeue u = dequeue_hand u.
+Proof.
+  intros u P. unfold dequeue, dequeue_hand. destruct (queue u) as [|r q]; [reflexivity|].
+  unfold is_retry_req, worker_decide, after_cancel, exit_check_hand, set_pc. cbn [present flags st queue wpc armed deq att conf]. rewrite P.
+  destruct (Nat.eqb (apply_req r (flags u)) 0); destruct (Nat.eqb (flags u) 0); destruct (Nat.eqb (req_flag r) 0); destruct q; reflexivity.
+Qed.
+
+Lemma apply_req_0_r : forall r, req_flag r = 0 -> forall fl, apply_req r fl = fl.
+Proof. intros [f|f] E fl; cbn in E; subst; cbn; unfold apply_add, apply_rem; [apply Nat.lor_0_r|apply Nat.ldiff_0_r]. Qed.
+
 (* ------------------------------------------------------------------ sends mirror the processed changes *)
 Definition inv_sends (u : user) : Prop := att u = flat_map expected (deq u).
 
@@ -27,18 +62,18 @@ Proof.
   - destruct p; cbn; exact I.
   - destruct p; cbn; exact I.
   - destruct w; cbn [fst]; try exact I.
-    + unfold dequeue. cbn [present flags st queue wpc armed deq att conf]. destruct q as [|r q]; [exact I|].
+    + rewrite dequeue_eq by reflexivity. unfold dequeue_hand. cbn [present flags st queue wpc armed deq att conf]. destruct q as [|r q]; [exact I|].
       destruct (Nat.eqb (apply_req r fl) 0) eqn:N.
-      * unfold after_cancel, exit_check, set_pc. cbn [present flags st queue wpc armed deq att conf].
+      * unfold after_cancel, exit_check_hand, set_pc. cbn [present flags st queue wpc armed deq att conf].
         destruct (Nat.eqb fl 0) eqn:P0; [destruct q|]; cbn;
           rewrite flat_map_snoc, <- I; cbn; rewrite N, ?P0; rewrite ?app_nil_r; reflexivity.
       * destruct (Nat.eqb fl 0 || Nat.eqb (req_flag r) 0) eqn:B; cbn;
           rewrite flat_map_snoc, <- I; cbn; rewrite N, B; rewrite ?app_nil_r; reflexivity.
-    + unfold finish_remove, exit_check, set_pc. cbn. destruct q; cbn; exact I.
+    + unfold finish_remove. rewrite exit_check_eq. unfold exit_check_hand, set_pc. cbn. destruct q; cbn; exact I.
   - destruct w; cbn [fst]; try exact I.
     unfold attempt_end. destruct (retry_delay _); cbn; exact I.
   - destruct w; cbn [fst]; try exact I.
-    all: try (unfold finish_remove, exit_check, set_pc; cbn; destruct q; cbn; exact I).
+    all: try (unfold finish_remove; rewrite exit_check_eq; unfold exit_check_hand, set_pc; cbn; destruct q; cbn; exact I).
     all: try (unfold attempt_end; cbn; exact I).
   - destruct a; cbn; exact I.
   - exact I.
@@ -145,7 +180,7 @@ Lemma good_exit : forall R q dq at_ w,
   queue_reasons q 0 = R ->
   good R (exit_check (mkU true 0 Untracked q w None dq at_ false)).
 Proof.
-  intros R q dq at_ w GR. unfold exit_check, set_pc. cbn. destruct q.
+  intros R q dq at_ w GR. rewrite exit_check_eq. unfold exit_check_hand, set_pc. cbn. destruct q.
   - cbn in GR. subst R. apply good_absent.
   - gsplit; [exact GR|triv|triv|triv|triv|triv|].
     intros _. split; [reflexivity|]. split; [intros; repeat split; auto; discriminate|]. intros Z; contradiction.
@@ -158,10 +193,11 @@ Proof.
   destruct w; cbn [fst].
   - (* PIdle *)
     destruct (GI eq_refl) as (G1 & G2 & G3). subst p.
-    unfold dequeue. cbn [present flags st queue wpc armed deq att conf].
+    rewrite dequeue_eq by reflexivity. unfold dequeue_hand. cbn [present flags st queue wpc armed deq att conf].
     destruct q as [|r q]; [gsplit; triv|]. cbn in GR.
     destruct (Nat.eqb (apply_req r fl) 0) eqn:N.
     + apply eqb0 in N. rewrite N in *. unfold after_cancel. cbn [present flags st queue wpc armed deq att conf].
+      fold (exit_check_hand (mkU true 0 s q PIdle None (dq ++ [(fl, 0, Nat.eqb (req_flag r) 0)]) at_ cf)). rewrite <- exit_check_eq.
       destruct (Nat.eqb fl 0) eqn:P0.
       * apply eqb0 in P0. destruct (G2 P0) as (A & B & C). subst s cf. apply good_exit. exact GR.
       * apply eqb0f in P0. gsplit; [exact GR|triv|triv|triv|triv|triv|triv].
